@@ -280,9 +280,13 @@ def run_one(seed, **kw):
     rng = random.Random(seed)
     kw.setdefault('steps', rng.randint(8, 60))
     kw.setdefault('lenreq', rng.random() < 0.5)
-    n = NetRec(rng, **kw)
-    n.desc = dict(kw, seed=seed)
-    return n.run()
+    kw.setdefault('debug_log', random.Random(seed ^ 0x5EED).random() < 0.15)
+    from harness.common import debug_logging
+    dbg = kw.pop('debug_log')
+    with debug_logging(dbg):
+        n = NetRec(rng, **kw)
+        n.desc = dict(kw, seed=seed, debug_log=dbg)
+        return n.run()
 
 
 # ---------------------------------------------------------------------------------------------
